@@ -76,6 +76,9 @@ def strategy(tier):
         st.fixed_dictionaries({'op': st.just('emit_cb'), 'ns': nsi,
                                'data': st.just('d'),
                                'send': st.just(False)}),
+        # an emit with callback whose payload cannot be encoded: the
+        # application is told, nothing else changes
+        st.fixed_dictionaries({'op': st.just('emit_fail'), 'ns': nsi}),
         st.fixed_dictionaries({'op': st.just('ack'), 'ns': nsi, 'sel': sel,
                                'j': st.integers(0, 5), 'args': args,
                                'dup': st.booleans(),
@@ -231,11 +234,15 @@ def _run(case, h):
             raise Violation(kind, 'step %d (%s): %r expected %r'
                             % (step, what, cb_log[-3:], expect_cb[-3:]))
 
+    leaked = {n: set() for n in NSS}   # ids of emits that were never sent
+    last_id = {}
+
     def pick(ns, sel, j):
-        out = outstanding[ns]
-        if sel == 'own' and out:
-            ids = sorted(out)
+        own = outstanding[ns]
+        if sel == 'own' and own:
+            ids = sorted(own)
             return ids[j % len(ids)], 'own'
+        out = set(own) | leaked[ns]
         if sel == 'used':
             cand = [i for i in used[ns] if i not in out]
             if cand:
@@ -345,11 +352,26 @@ def _run(case, h):
             if pid in outstanding[ns]:
                 raise Violation('ack-id-not-unique', 'id %r on %s' % (pid, ns))
             outstanding[ns][pid] = kk
+            last_id[ns] = pid
             same = [n for n in NSS if n != ns and pid in outstanding[n]]
             if same:
                 labels['nontrivial'] = True
                 labels['equal_ids_two_namespaces'] = True
             check_quiet(step, 'emit_cb')
+        elif k == 'emit_fail':
+            h.take_msgs()
+            try:
+                h.do(sio.emit('q', {1, 2}, namespace=ns,
+                              callback=lambda *a: cb_log.append(
+                                  ('never-sent', a))))
+            except TypeError:
+                pass
+            if h.take_msgs():
+                raise Violation('failed-emit-sent-something', '')
+            last_id[ns] = last_id.get(ns, 0) + 1
+            leaked[ns].add(last_id[ns])
+            labels['emit_failed'] = True
+            check_quiet(step, 'emit_fail')
         elif k == 'ack':
             pid, kind = pick(ns, op['sel'], op['j'])
             kk = None
@@ -403,6 +425,7 @@ def _run(case, h):
                         pk[0]['nsp'] != ns:
                     raise Violation('call-frame', repr(pk))
                 state['id'] = pk[0]['id']
+                last_id[ns] = state['id']
                 if state['id'] in outstanding[ns]:
                     raise Violation('ack-id-not-unique', 'call id %r'
                                     % state['id'])
@@ -425,7 +448,9 @@ def _run(case, h):
                             for f in wire.frames(wire.ACK, others[0],
                                                  state['id'],
                                                  list(a['args'])):
-                                if state['id'] not in outstanding[others[0]]:
+                                if state['id'] not in outstanding[
+                                        others[0]] and state['id'] not in \
+                                        leaked[others[0]]:
                                     h.deliver(f)
             err = res = None
             if aio:
